@@ -29,7 +29,7 @@ fn tree_family_cases(r: &mut Rng, t: Tier, fam: &str, ops: &[&str], extra: &[&st
         let cfg = if fam == "wt" || fam == "hwt" { (256, false) } else { QWT_CFGS[i % 4] };
         let ty = TYS[(i / 4 + i) % 6];
         let big = i % 9 == 8;
-        let max_len = if big { scale(t, 70_000, 1_200_000) } else { scale(t, 6_000, 60_000) };
+        let max_len = if big { scale(t, 70_000, 1_200_000) } else if i % 3 == 1 { scale(t, 24_000, 120_000) } else { scale(t, 6_000, 60_000) };
         let o = TreeOpts {
             fam,
             b: cfg.0,
@@ -138,7 +138,7 @@ fn rsq_cases(r: &mut Rng, t: Tier, ops: &[&str], extra: &[&str], n_cases: usize,
         let mut c = Case::new("rsq");
         let big = i % 6 == 5;
         let n = if r.chance(1, 25) { 0 } else { some_len(r, if big { scale(t, 150_000, 3_000_000) } else { scale(t, 9_000, 100_000) }) };
-        let shape = r.below(7);
+        let shape = r.below(9);
         let alpha: Vec<u128> = match r.below(4) {
             0 => vec![r.below(4) as u128],
             1 => vec![0, 3],
@@ -211,12 +211,13 @@ fn rsq_cases(r: &mut Rng, t: Tier, ops: &[&str], extra: &[&str], n_cases: usize,
                         let mut ks = vec![0, 1, k.saturating_sub(1), k, k + 1, usize::MAX, k / 2];
                         for m in [8192usize, 16384, 24576] {
                             if k >= m {
-                                ks.extend([m - 1, m]);
+                                ks.extend([m - 2, m - 1, m]);
                                 if k > m {
                                     ks.push(m + 1);
                                 }
                             }
                         }
+                        ks.extend(gap_ks(&v, s));
                         if k > 0 {
                             for _ in 0..(if big { 12 } else { 30 }) {
                                 ks.push(r.below(k as u64) as usize);
@@ -285,8 +286,12 @@ fn darray_cases(r: &mut Rng, t: Tier, extra: &[&str], n_cases: usize, out: &mut 
         } else {
             for g in 0..plan_len {
                 let last = g + 1 == plan_len;
-                let cnt = if last && r.chance(1, 2) { r.range(1, 1023) as usize } else { 1024 };
-                let kind = r.below(4);
+                let cnt = if last && r.chance(1, 2) {
+                    if r.chance(1, 2) { *r.pick(&[1usize, 2, 31, 32, 33, 64, 65, 97, 993, 1023]) } else { r.range(1, 1023) as usize }
+                } else {
+                    1024
+                };
+                let kind = if plan.ends_with('c') { 1 } else { r.below(5) };
                 match kind {
                     0 => {
                         // dense: consecutive or small gaps
@@ -311,13 +316,37 @@ fn darray_cases(r: &mut Rng, t: Tier, extra: &[&str], n_cases: usize, out: &mut 
                         plan.push(if exact == 65536 { 'T' } else { 't' });
                         let start = pos;
                         for k in 0..cnt {
-                            if k + 1 == cnt && cnt == 1024 {
+                            if k + 1 == cnt && cnt >= 2 {
                                 ps.push(start + exact);
                             } else {
                                 ps.push(start + k);
                             }
                         }
                         pos = start + exact + 1;
+                    }
+                    4 if cnt >= 200 => {
+                        // dense group whose tail is a tight cluster ending exactly at the largest
+                        // 16-bit offset (sub-block offsets next to u16::MAX); a sparse group follows
+                        plan.push('c');
+                        let span = *r.pick(&[65535usize, 65535, 65534, 65500]);
+                        let tail = r.range(33, 90) as usize;
+                        let start = pos;
+                        let mut head: Vec<usize> = vec![];
+                        let mut q = start;
+                        for _ in 0..cnt - tail {
+                            head.push(q);
+                            q += r.range(1, 3) as usize;
+                        }
+                        let mut tl: Vec<usize> = vec![];
+                        let mut e = start + span;
+                        for _ in 0..tail {
+                            tl.push(e);
+                            e -= if r.chance(1, 24) { 2 } else { 1 };
+                        }
+                        tl.reverse();
+                        ps.extend(head);
+                        ps.extend(tl);
+                        pos = start + span + 1;
                     }
                     _ => {
                         // mixed: dense cluster then one far away
@@ -727,7 +756,7 @@ pub fn cases(prop: &str, t: Tier, seed: u64) -> Vec<Case> {
     let r = &mut r;
     let mut out = vec![];
     match prop {
-        "C01" => tree_family_cases(r, t, "qwt", &["len", "is_empty", "sigma", "n_levels", "get", "rank", "select", "rank_prefetch"], &["dump 0"], scale(t, 96, 600), &mut out),
+        "C01" => tree_family_cases(r, t, "qwt", &["len", "is_empty", "sigma", "n_levels", "get", "rank", "select", "rank_prefetch"], &["dump 0"], scale(t, 160, 800), &mut out),
         "C02" => {
             tree_family_cases(r, t, "hqwt", &["len", "is_empty", "get", "rank", "select", "rank_prefetch"], &["dump 0"], scale(t, 72, 480), &mut out);
             huff_profile_cases(r, t, "hqwt", &["get", "rank", "select"], &["dump 0"], &mut out);
@@ -737,9 +766,9 @@ pub fn cases(prop: &str, t: Tier, seed: u64) -> Vec<Case> {
             tree_family_cases(r, t, "hwt", &["len", "is_empty", "get", "rank", "select"], &["dump 0"], scale(t, 48, 300), &mut out);
             huff_profile_cases(r, t, "hwt", &["get", "rank", "select"], &["dump 0"], &mut out);
         }
-        "C05" => rsq_cases(r, t, &["len", "is_empty", "get", "rank", "select", "occs", "occs_smaller"], &["dump 0"], scale(t, 90, 600), &mut out),
-        "C06" => rsbin_cases(r, t, &["rsn", "rsw"], &["get", "rank1", "rank0", "select1", "select0", "n_ones", "n_zeros"], &["dump 1"], scale(t, 110, 700), &mut out),
-        "C07" => darray_cases(r, t, &["dump 1"], scale(t, 44, 300), &mut out),
+        "C05" => rsq_cases(r, t, &["len", "is_empty", "get", "rank", "select", "occs", "occs_smaller"], &["dump 0"], scale(t, 150, 800), &mut out),
+        "C06" => rsbin_cases(r, t, &["rsn", "rsw"], &["get", "rank1", "rank0", "select1", "select0", "n_ones", "n_zeros"], &["dump 1"], scale(t, 160, 900), &mut out),
+        "C07" => darray_cases(r, t, &["dump 1"], scale(t, 90, 500), &mut out),
         "C08" => bvm_history_cases(r, t, scale(t, 80, 600), &mut out),
         "C09" => {
             // rank_prefetch == rank on every alias, long sequences, >= 3 levels
@@ -756,7 +785,7 @@ pub fn cases(prop: &str, t: Tier, seed: u64) -> Vec<Case> {
                     max_len: if i % 4 == 3 { scale(t, 90_000, 1_500_000) } else { scale(t, 14_000, 120_000) },
                     ops: &["rank_prefetch", "rank", "rank_prefetch"],
                     budget: 500,
-                    extra: &[],
+                    extra: &["dump 0"],
                     max_card: 300,
                     max_symbol: Some(if fam == "hqwt" { 3000 } else { 60000 }),
                 };
